@@ -3,6 +3,7 @@ import MosnVerif.Gen.ProxyTerminate
 import MosnVerif.Lemmas.FilterInst
 import MosnVerif.Lemmas.FilterRegs
 import MosnVerif.Lemmas.FilterFinish
+import MosnVerif.Lemmas.Downstream.Backoff9  -- (proxy10 section at the end of the file)
 /-!
 # C14 — stream filters run in order, and a denied request is never forwarded (property theorems only)
 
@@ -597,5 +598,54 @@ example : trace ⟨toChain [⟨7, .BeforeRoute⟩, ⟨3, .AfterRoute⟩] (fun i 
 
 end Registrations
 /-! ## c14r7 END -/
+
+/-! ### ==== proxy10: the asynchronous denial on the shared downstream machine (every schedule, the back-off included) ==== -/
+
+end MosnVerif.Props.C14
+
+namespace MosnVerif.Props.C14
+open MosnVerif.Model.Downstream
+
+/-- **deny_not_forwarded_backoff**: the filter machine above delivers an asynchronous `TerminateStream` to the worker parked in
+`waitNotify`; the shared downstream machine (`Model/Downstream.lean`: every schedule of the extended label type) also delivers
+it while the worker is asleep in `doRetry`'s back-off — the attempt was given up for a retry, the response slot is free, the
+call is accepted.  On EVERY schedule that leaves the worker in the back-off with the local reply of an accepted call pending —
+whatever else landed during the rest of the sleep: the client's departure, the connection close, late frames of the given-up
+attempt, the global timer … — the wake-up creates NO upstream attempt: no `ConnectionPool.NewStream`, admitted or refused, no
+new client stream; the worker leaves the Retry phase with the reply (or, the client gone, cleans the stream).  The denied request
+is not forwarded.  Rests on the regenerated `doRetry` (`Gen.ProxyBackoff.doRetry`: `if s.directResponse { return }` after the
+sleep) and the regenerated `processError` / `TerminateStream`. -/
+theorem deny_not_forwarded_backoff (c : Cfg) (ar aq : Nat) (l : List Label)
+    (hb : backoff (run c (init ar aq) l) = true) (hacc : (run c (init ar aq) l).direct = true) :
+    (run c (init ar aq) (l ++ [.work])).streams.length = (run c (init ar aq) l).streams.length ∧
+    (run c (init ar aq) (l ++ [.work])).trace.filter attemptEv = (run c (init ar aq) l).trace.filter attemptEv ∧
+    ((run c (init ar aq) (l ++ [.work])).running = false ∨ (run c (init ar aq) (l ++ [.work])).phase ≠ .Retry) := by
+  have hi := inv_run c ar aq l
+  obtain ⟨hcl, _, _, _, _, _, _, _, _, _, _, hdf⟩ := backoff_facts c ar aq _ hi hb
+  have := wake_direct_no_attempt c (run c (init ar aq) l) hb hacc hcl (hdf hacc).2.1
+  simpa [run, List.foldl_append, step, att] using this
+
+/-- … and such a state is reached exactly by an accepted call: in the back-off (no local reply pending yet) `TerminateStream` is
+accepted iff no response headers are stored and the response slot is free; an accepted call leaves its reply pending, the
+worker asleep, the trace untouched -/
+theorem terminate_in_backoff_accepted (c : Cfg) (ar aq : Nat) (l : List Label) (code : Nat)
+    (hb : backoff (run c (init ar aq) l) = true) (hnd : (run c (init ar aq) l).direct = false) :
+    backoff (run c (init ar aq) (l ++ [.terminate code])) = true ∧
+    (run c (init ar aq) (l ++ [.terminate code])).trace = (run c (init ar aq) l).trace ∧
+    ((run c (init ar aq) (l ++ [.terminate code])).direct = true ↔
+      ((run c (init ar aq) l).resp.isSome = false ∧ (run c (init ar aq) l).urr = false)) := by
+  have h := terminate_backoff_spec c ar aq (run c (init ar aq) l) code (inv_run c ar aq l) hb
+  simp only [run, List.foldl_append, List.foldl_cons, List.foldl_nil, step]
+  simp only [run] at h hnd
+  refine ⟨h.2.2.1, h.1, ?_⟩
+  rw [h.2.2.2.2.2.1]
+  simp [hnd]
+
+/-- non-vacuity: attempt 0 is reset (retried), TerminateStream(403) lands in the back-off, then the client's connection is
+closed during the rest of the sleep; the wake-up: no attempt 1, no reply (the client is gone), the stream is cleaned -/
+example : ((fun (s : S) => (s.trace, s.cleaned, s.upActive))
+    (run { retryOn := true, numRetries := 2 } (init 0 0)
+      (List.replicate 12 .work ++ [.upReset 0 .StreamConnectionFailed, .work, .terminate 403, .connClose, .work]))) =
+    ([.un 0, .uh 0 true, .log 504 0x2000], true, 0) := by decide
 
 end MosnVerif.Props.C14
